@@ -494,10 +494,36 @@ func (p *Prov) loadAlloc(al *ssa.Alloc, path []int) []Origin {
 	visitAddr(al, nil)
 	var out []Origin
 	composite := false
+	// the in-place literal pattern: `x = T{f: v}` naming only some fields is compiled as a store of the
+	// zero value of T into x followed by the field stores. The zero store does not reach a load of a
+	// field that is stored afterwards; for a field that is not, the load yields the zero value.
+	hasZeroWhole, hasOther := false, false
+	for _, h := range hits {
+		if h.val == nil {
+			continue
+		}
+		if c, isC := h.val.(*ssa.Const); isC && c.Value == nil && len(h.rest) > 0 {
+			if _, isStruct := c.Type().Underlying().(*types.Struct); isStruct {
+				hasZeroWhole = true
+				continue
+			}
+		}
+		hasOther = true
+	}
 	for _, h := range hits {
 		if h.val == nil {
 			composite = true
 			continue
+		}
+		if hasZeroWhole {
+			if c, isC := h.val.(*ssa.Const); isC && c.Value == nil && len(h.rest) > 0 {
+				if _, isStruct := c.Type().Underlying().(*types.Struct); isStruct {
+					if !hasOther {
+						out = append(out, Origin{Kind: KZero, V: al})
+					}
+					continue
+				}
+			}
 		}
 		o := p.val(h.val)
 		t := h.val.Type()
